@@ -405,7 +405,7 @@ class C20(Sim):
         "loggers / factory managers used as values": "real objects (two extra Logger, two extra FactoryManager instances)",
         "exceptions": "injected by the simulator (8 kinds) or by sys.settrace line crash inside library helpers",
     }
-    tiers = {"quick": (1200, 60.0), "thorough": (200000, 900.0)}
+    tiers = {"quick": (6000, 60.0), "thorough": (600000, 1500.0)}
     chunk = 25
     expected_probes = [
         "depth4_reached", "same_key_in_nested_contexts", "assign_inside_context", "falsy_value_set",
